@@ -19,8 +19,9 @@ KindMembers == <<{Mem(k, l) : k \in Kinds1, l \in Vis4}, {}>>
 KindMembersT == <<{Mem(k, l) : k \in Kinds1, l \in Vis4 \cup {"same"}}, {}>>
 
 \* --- nested: a class with a nested class; the outer class may mention the nested one
-NestHeads == {<<"class", FALSE, FALSE>>, <<"struct", TRUE, FALSE>>}
-NestMembers == <<{Mem(k, l) : k \in {"meth", "usep"}, l \in {"published", "public", "private"}},
+NestHeads == {<<"class", FALSE, FALSE>>}
+NestHeadsT == {<<"class", FALSE, FALSE>>, <<"struct", TRUE, FALSE>>}
+NestMembers == <<{Mem(k, l) : k \in {"meth", "usep"}, l \in {"published", "private"}},
                  {Mem("meth", l) : l \in {"same", "published", "private"}}>>
 NestMembersT == <<{Mem(k, l) : k \in {"meth", "usep", "user"}, l \in {"published", "public", "protected", "private"}},
                   {Mem("meth", l) : l \in {"same", "published", "public", "private"}}>>
@@ -33,9 +34,12 @@ FileBases == {<<"public", FALSE>>, <<"private", FALSE>>}
 FileCmds == {"ignorefile", "forcetype"}
 \* --- filetops: a class (possibly in a namespace) and one namespace-scope declaration, two files, one command
 FTHeads == {<<"class", FALSE, FALSE>>, <<"class", FALSE, TRUE>>}
-FTMembers == <<{Mem("meth", "published"), Mem("meth", "public")}, {}>>
-FTTops == {Top("usef", TRUE, FALSE), Top("tdefc", FALSE, FALSE), Top("func", TRUE, FALSE), Top("var", TRUE, FALSE), Top("macro", TRUE, FALSE)}
-FTCmds == {"ignorefile", "forcetype", "ignoretype", "ignoreinvolved"}
+FTMembers == <<{Mem("meth", "published")}, {}>>
+FTMembersT == <<{Mem("meth", "published"), Mem("meth", "public")}, {}>>
+FTTops == {Top("usef", TRUE, FALSE), Top("tdefc", FALSE, FALSE), Top("func", TRUE, FALSE)}
+FTTopsT == {Top("usef", TRUE, FALSE), Top("tdefc", FALSE, FALSE), Top("func", TRUE, FALSE), Top("var", TRUE, FALSE), Top("macro", TRUE, FALSE)}
+FTCmds == {"ignorefile", "ignoretype", "ignoreinvolved"}
+FTCmdsT == {"ignorefile", "forcetype", "ignoretype", "ignoreinvolved"}
 
 \* --- tops: namespace-scope declarations of every kind, in and out of publish regions / namespaces
 TopKinds == {"func", "sfunc", "dfunc", "tfunc", "rfunc", "var", "macro", "fmacro"}
@@ -45,7 +49,7 @@ TopSrcs == {"cwd", "I", "S"}
 
 \* --- commands on members
 CmdHeads == {<<"class", FALSE, FALSE>>}
-CmdMembers == <<{Mem(k, "published") : k \in {"meth", "data", "dtor", "usep"}} \cup {Mem("gct", "public")}, {}>>
+CmdMembers == <<{Mem(k, "published") : k \in {"meth", "data", "dtor", "usep"}}, {}>>
 CmdMembersT == <<{Mem(k, l) : k \in {"meth", "smeth", "data", "dtor", "ctor", "usep", "gct"}, l \in {"published", "public"}}, {}>>
 CmdAll == {"ignoremember", "ignoretype", "ignoreinvolved", "forcetype"}
 
@@ -58,6 +62,7 @@ M00 == <<0, 0>>
 M10 == <<1, 0>>
 
 None == {}
+NoComment == {""}
 NestCS == {"class", "struct"}
 DumpFile == IF "VERIF_DUMP" \in DOMAIN IOEnv THEN IOEnv.VERIF_DUMP ELSE ""
 
@@ -68,6 +73,9 @@ WFRefs ==
        (NeedsRef(m.k) /\ Cls(m.rc).outer # 0 /\ Cls(m.rc).outer # c) => Rank(ClassVis(m.rc)) <= 1
   /\ \A t \in 1..NT : LET d == lib.tops[t] IN
        (NeedsRef(d.k) /\ Cls(d.rc).outer # 0) => Rank(ClassVis(d.rc)) <= 1
+  \* the visibility of a class that is a namespace member is never stamped by build(): "exported if itself
+  \* visible" is claimed for global-scope and nested classes only (a namespace member needs a visible member)
+  /\ \A c \in 1..NC : (done /\ Cls(c).ns /\ Cls(c).outer = 0 /\ lib.minvis = "public") => AnyVisibleMember(c)
   \* one destructor, one get_class_type, one constructor signature per class (valid C++)
   /\ \A c \in 1..NC : \A k \in {"dtor", "gct", "ctor"} : Cardinality({i \in 1..NM(c) : Mbr(c, i).k = k}) <= 1
 
